@@ -97,7 +97,7 @@ def run(ctx):
                 ("rand", "ProxyRead_rand.cfg", ("num=150", 21))]
         asis = "ProxyRead_asis.cfg"
         shard = "ProxyRead_shard.cfg"
-        api_every = {"search": 7, "search8": 2, "merge": 5, "fetch": 5, "fetch3": 1, "store": 1, "rand": 1, "shuf": 5, "conc": 7, "big": 9}
+        api_every = {"search": 7, "search8": 2, "merge": 5, "fetch": 5, "fetch3": 1, "store": 1, "rand": 1, "shuf": 5, "conc": 7, "big": 23}
         conc_args = ["-conc-reps", "3", "-conc-min", "20000"]
     else:
         fams = [("search", "ProxyRead_searchfull.cfg", None), ("search8", "ProxyRead_search8full.cfg", None),
@@ -185,6 +185,9 @@ def run(ctx):
     for label, cfg, cf, r in results:
         args = ["-workers", str(vlib.NCPU), "-paths", "ingestor,api", "-api-every", str(api_every[label]),
                 "-stats", statsf]
+        if label == "big":
+            # a subsample of the rows also through the proxy's gRPC Export (streams the documents of the same Ingestor.Search)
+            args += ["-big-api-every", "13" if quick else "7"]
         mism, summ, _ = vlib.run_cases(ctx, drv, args, cf, label=label, timeout=3000)
         for k in tot:
             tot[k] += summ[k]
@@ -198,6 +201,13 @@ def run(ctx):
                     "doc-wrong:big": "a complete search over a generated big page: a position carries a document that is not the "
                                      "document of the returned ID (or a document where its store's stream had broken)",
                     "doc-count:big": "a generated big page: the document iterator does not deliver one document per returned ID",
+                    "doc-lost:big-export": "gRPC Export of a generated big page: documents their stores delivered in request order "
+                                           "come back empty",
+                    "doc-wrong:big-export": "gRPC Export of a generated big page: a document that is not the document of its position",
+                    "doc-count:big-export": "gRPC Export of a generated big page: not one document per ID of the page",
+                    "ids:big-export": "gRPC Export of a generated big page: the exported IDs are not the page of the merged result, or an "
+                                      "ID was not fetched from the store that holds it",
+                    "outcome-kind:big-export": "gRPC Export of a generated big page with every store answering fails",
                     "ids:big": "a generated big page: the returned IDs are not the page of the merged result, or an ID was not "
                                "fetched from the store that holds it",
                     "outcome-kind:big": "a generated big page with every store answering is not returned as complete",
@@ -206,7 +216,7 @@ def run(ctx):
                     "ids": "returned IDs (or the host they are fetched from) outside Allowed(scenario)",
                     "fake-protocol": "a store was asked something the scenario does not foresee",
                     "crash": "driver process died"}
-            what = what.get(m.get("what", "") + (":big" if m.get("path") == "big" else ""),
+            what = what.get(m.get("what", "") + (":" + m["path"] if m.get("path") in ("big", "big-export") else ""),
                             what.get(m.get("what"), "outcome outside Allowed(scenario)"))
             ctx.violation(sig, m, what=what)
         if label == "conc":
@@ -243,7 +253,8 @@ def run(ctx):
                 "at the same time from %d goroutines in repeated passes; afterwards the configured replica lists are compared with the "
                 "case's lists" % vlib.NCPU}
     ctx.cov["big_pages"] = {
-        "rows_replayed": drv_stats["big_rows"], "small_instances_replayed_both_ways": drv_stats["big_small"],
+        "rows_replayed": drv_stats["big_rows"], "rows_also_through_grpc_export": drv_stats["big_exports"],
+        "small_instances_replayed_both_ways": drv_stats["big_small"],
         "documents_read": drv_stats["big_docs"],
         "note": "family big: rows of the TLA+-decided dimension table, generated arithmetically from BigRule and held to it position by "
                 "position; on every small instance the driver's evaluator of the rule reproduced TLC's tables (answers, fetch requests, "
@@ -287,8 +298,8 @@ def run(ctx):
         "store side of wants-old-data (storeapi earlierThanOldestFrac, maturity) is exercised by the store family only (real hot/cold store incl. the state before the first maintenance pass); elsewhere a fake declares it",
         "totals, histograms and aggregations of the merged response are outside this check (C05/C06)",
         "big pages: the expected outcome of a row is the closed-form rule that TLC proves equal to Allowed on the small instances of the same "
-        "family (the model has no integer widths, so the rule does not depend on n); rows are replayed in-process only, stores hold one "
-        "document per MID (RID 1), every store answers the search",
+        "family (the model has no integer widths, so the rule does not depend on n); rows are replayed in-process and a subsample (descending order only: the Export "
+        "request has no order) through the proxy's gRPC Export; stores hold one document per MID (RID 1), every store answers the search",
     ]
     # the proxy as a whole (ProxySystem.tla): a real bulk client and a real search ingestor over real in-process
     # stores behind fault-injecting client wrappers; every recorded history must be a behaviour of the model
